@@ -233,7 +233,7 @@ func c01Tiny(o *cli.Opts, run *evid.Run) {
 				chosen := chooseWires(all, 2)
 				accepted := 0
 				odometer(len(chosen), func(vals []int64) bool {
-					if sys.Solve(insGadgetAssign(c), odometerHints(chosen, vals)).Accepted {
+					if sys.SolveWith(insGadgetAssign(c), odometerHints(chosen, vals)).Accepted {
 						accepted++
 						if !c.Valid {
 							run.Violate(fmt.Sprintf("%s/odometer/%v", key, vals), fmt.Sprintf("F47 insertion gadget accepts an invalid input with hint outputs %v", vals), c.Describe())
